@@ -188,6 +188,7 @@ class DepthDataNative(Contract):
     target = "geoh5py/objects/drillhole.py::Drillhole.validate_depth_data"
     symbolic = False
     has_native = True
+    native_shards = 4
     props = ("C18",)
     bounded_scope = ("sequences of 1-4 add_data calls mixing depth logs and interval logs on one hole (unsorted, repeated, nearly equal depths; identical, nested, overlapping, "
                      "contiguous and disjoint intervals; logs added together, one by one in one session, or one by one with the file closed and re-opened before each call): after every call each vertex with a depth sits at the reference position of that depth, "
